@@ -8,8 +8,6 @@ connection attempt on a recording reactor.
 import core
 from coqterm import B, Bool, C, L, N, Opt, Rec
 
-FLAG_NAMES = ['default_unresolved', 'cfg_unix_line_with_options', 'cfg_first_entry_unusable',
-              'cfg_call_after_refused_setconf']
 
 # ------------------------------------------------------------------ mirror of Spec/C18.v (finding classes only)
 
@@ -64,21 +62,9 @@ def is_cfg(op):
     return op['api'] in ('cfg_ep', 'cfg_create')
 
 
-def class_flags(entries, sp, dflt, rej, op):
-    f1 = (not is_cfg(op)) and sp is None and not dflt
-    sel = None
-    if op['want'] is None:
-        sel = entries[0] if entries else None
-    elif op['api'] == 'cfg_ep':
-        for e in entries:
-            if first_word(e) == op['want']:
-                sel = e
-                break
-    f2 = is_cfg(op) and sel is not None and sel.startswith('unix:') and ' ' in sel
-    f3 = (is_cfg(op) and op['want'] is None and len(entries) > 0 and not usable(entries[0])
-          and (disabled(entries[0]) or any(usable(e) for e in entries[1:])))
-    f4 = is_cfg(op) and rej
-    return [f1, f2, f3, f4]
+def class_flag(rej, op):
+    """C18-F4: a TorConfig call made after Tor refused a SETCONF of an earlier call"""
+    return is_cfg(op) and rej
 
 
 # ------------------------------------------------------------------ the scripted Tor
@@ -353,11 +339,10 @@ class P(core.Prop):
             if not boot or isinstance(boot[0], Failure):
                 raise RuntimeError('TorConfig bootstrap failed: %r' % (boot,))
         ops = []
-        flags = [False, False, False, False]
+        flag = False
         rej = False
         for op in case['ops']:
-            fl = class_flags(tor.entries(), tor.sp, tor.dflt, rej, op)
-            flags = [a or b for a, b in zip(flags, fl)]
+            flag = flag or class_flag(rej, op)
             n0 = len(tor.lines)
             tor.accept = op['accept']
             tor.refused = False
@@ -386,7 +371,7 @@ class P(core.Prop):
                 out = self._outcome(reactor, fired[0])
             ops.append({'sent': tor.lines[n0:], 'out': out})
             rej = rej or tor.refused
-        return {'ops': ops, 'flags': flags, 'final': tor.sp}
+        return {'ops': ops, 'flag': flag, 'final': tor.sp}
 
     def _run_client(self, case):
         from twisted.internet import error
@@ -482,7 +467,7 @@ class P(core.Prop):
             scn = C('SClient', Opt(None if not case['given'] else self._ep(['tcp'] + list(case['given']))),
                     L(att[o[0]](o) for o in case['outs']))
             ob = C('BClient', Rec(attempts=L(self._ep(a) for a in obs['attempts']), cresult=res))
-            return Rec(k_scn=scn, k_picks='nil', k_obs=ob, k_flags='nil', k_final='RDefault')
+            return Rec(k_scn=scn, k_picks='nil', k_obs=ob, k_flag='false', k_final='RDefault')
         api = {'create': 'ACreate', 'default': 'ADefault', 'cfg_ep': 'ACfgEndpoint', 'cfg_create': 'ACfgCreate'}
         ops = L(Rec(o_api=api[o['api']], o_want=Opt(None if o['want'] is None else B(o['want'])),
                     o_avail=B(str(o['avail'])), o_accept=Bool(o['accept'])) for o in case['ops'])
@@ -499,7 +484,7 @@ class P(core.Prop):
                 out = C('OEp', self._ep(o))
             obl.append(Rec(sent=L(B(x) for x in b['sent']), out=out))
         return Rec(k_scn=scn, k_picks=L(picks), k_obs=C('BHist', L(obl)),
-                   k_flags=L(Bool(f) for f in obs['flags']), k_final=self._reply(obs['final']))
+                   k_flag=Bool(obs['flag']), k_final=self._reply(obs['final']))
 
     # ---------------------------------------------------------------- evidence helpers
     def kind(self, case, obs):
@@ -698,10 +683,7 @@ class P(core.Prop):
                 yield dict(case, ops=ops[:i] + [dict(o, accept=True)] + ops[i + 1:])
 
     finding_preds = {
-        'default_unresolved': lambda c, o: c['kind'] == 'hist' and o.get('flags', [0, 0, 0, 0])[0],
-        'cfg_unix_line_with_options': lambda c, o: c['kind'] == 'hist' and o.get('flags', [0, 0, 0, 0])[1],
-        'cfg_first_entry_unusable': lambda c, o: c['kind'] == 'hist' and o.get('flags', [0, 0, 0, 0])[2],
-        'cfg_call_after_refused_setconf': lambda c, o: c['kind'] == 'hist' and o.get('flags', [0, 0, 0, 0])[3],
+        'cfg_call_after_refused_setconf': lambda c, o: c['kind'] == 'hist' and bool(o.get('flag')),
     }
 
 
